@@ -405,6 +405,18 @@ fn arabic_model(v: &mut [char]) {
     }
 }
 
+/// Rewrites whose omission at a site is an accepted alternative (they are still counted in the evidence `observations`):
+/// * Kannada RA HALANT ZWJ inside the text: allsorts swaps at the start of the run only and its own unit test
+///   `test_non_initial_ra_halant_zwj` pins that; HarfBuzz does it per syllable; the shaping documents speak of the sequence
+///   without saying where.
+/// * the second of two overlapping prohibited vowel pairs (A, CANDRA E, AA): one dotted circle already breaks the sequence.
+/// * Tamil prohibited pairs: listed in the Unicode core specification, not in the OpenType shaping documents.
+const ACCEPTED_DECLINES: [&str; 3] = [
+    "indic:kannada-ra-halant-zwj-not-swapped-inside-text",
+    "indic:no-dotted-circle-at-second-of-two-overlapping-pairs",
+    "indic:no-dotted-circle-at-tamil-pair",
+];
+
 /// Decision source for the rewrite sites of a model run: site k is applied unless `dec[k] == false`.
 struct Dec<'a> {
     dec: &'a [bool],
@@ -462,8 +474,23 @@ fn indic_model(v: &mut Vec<char>, sub: Sub, d: &mut Dec<'_>) {
     let mut a = Vec::with_capacity(v.len() * 3 + 2);
     for i in 0..v.len() {
         a.push(v[i]);
-        if circle_site(v, i) && d.apply("indic:no-dotted-circle-at-prohibited-pair") {
-            a.push(DOTTED_CIRCLE);
+        if circle_site(v, i) {
+            // which prohibited pairs may legitimately stay without a dotted circle (see ACCEPTED_DECLINES): the second of two
+            // overlapping pairs (the circle of the first pair already separates the sequence; allsorts resumes behind the pair
+            // it just handled), and the Tamil pairs (they come from the Unicode core specification's table, the shaping
+            // documents allsorts follows list none for Tamil)
+            let overlaps_previous = i >= 1 && circle_site(v, i - 1);
+            let tamil = (0x0B80..=0x0BFF).contains(&(v[i] as u32));
+            let kind = if overlaps_previous {
+                "indic:no-dotted-circle-at-second-of-two-overlapping-pairs"
+            } else if tamil {
+                "indic:no-dotted-circle-at-tamil-pair"
+            } else {
+                "indic:no-dotted-circle-at-prohibited-pair"
+            };
+            if d.apply(kind) {
+                a.push(DOTTED_CIRCLE);
+            }
         }
     }
     // 2. multi-part matras
@@ -785,7 +812,18 @@ fn check_one(tag: u32, fam: Fam, sub: Sub, input: &[char]) -> Verdict {
                     exhausted |= budget == 0;
                 }
                 match found {
-                    Some(d) => declined_kinds = d,
+                    Some(d) => {
+                        // a documented rewrite that was not applied is accepted only where that has been looked at and
+                        // justified; anywhere else it is a violation like any other difference
+                        for k in d.iter().filter(|k| !ACCEPTED_DECLINES.contains(*k)) {
+                            viols.push(Viol {
+                                key: format!("C17:documented-rewrite-not-applied:{}", k),
+                                expected: Some(strict.clone()),
+                                note: "the output is the reference model with this documented rewrite left out at some site (expected = all applied)".into(),
+                            });
+                        }
+                        declined_kinds = d
+                    }
                     None if exhausted => undecided = true,
                     None => viols.push(Viol {
                         key: sort_key(fam, &strict, &out),
